@@ -700,6 +700,11 @@ impl Store {
                 self.threads.reset();
                 Some("ok".into())
             }
+            ["tdrain"] => {
+                // collect the file-system calls made since the last traced request (by anybody)
+                let t = self.take_trace();
+                Some(format!("ok{}", t))
+            }
             ["drop"] => {
                 // drop the owning store object, keep a handle
                 self.kv = None;
